@@ -30,6 +30,11 @@ def scenario(ctx, i):
     nm = int(r.integers(1, 5))
     nt = int(r.integers(1, 5)) if r.random() < 0.93 else int(r.integers(129, 300))  # a long list of test items: one column each
     models = [m + r.normal(size=m.shape) * np.sqrt(v) * r.choice([0.0, 0.3, 1.0]) for _ in range(nm)]
+    if r.random() < 0.15:
+        # features measured from a far origin (means ~1000 standard deviations from 0) and models that MAP adaptation on little data
+        # moved by a thousandth of a standard deviation: small next to the means, not next to the spread - the score is linear in it
+        m = m + 1000.0 * np.sqrt(v) * r.choice([-1.0, 1.0], size=m.shape)
+        models = [m + r.normal(size=m.shape) * np.sqrt(v) * 1e-3 for _ in range(nm)]
     mk = ["machines", "array3", "array2"][int(r.integers(0, 3))]  # every choice below is drawn independently (no parity ties between them)
     if mk == "array2":
         models = models[:1]
